@@ -19,6 +19,7 @@ import (
 	"errors"
 	"fmt"
 	"io"
+	"math"
 	"strconv"
 	"strings"
 
@@ -479,6 +480,11 @@ func unmarshalYAMLNode(filename string, positions positionIndex, n *yaml.Node, t
 		case bool:
 			return syntax.BooleanSyntax(YAMLSyntax{n, rng, path, v}, v), nil
 		case float64:
+			if math.IsInf(v, 0) || math.IsNaN(v) {
+				// json.Number cannot represent these: the evaluated environment could not be serialized.
+				diags.Extend(syntax.Error(rng, fmt.Sprintf("unsupported number %v: numbers must be finite", n.Value), path))
+				return nil, diags
+			}
 			nv := syntax.AsNumber(v)
 			return syntax.NumberSyntax(YAMLSyntax{n, rng, path, nv}, nv), nil
 		case int:
